@@ -140,6 +140,37 @@ class Ctx:
                          "model is not a verdict about the code):\n%s" % (module, cfgname, tail))
         return ok, res
 
+    def apalache(self, module, args, timeout=600, lemmas=1, note=""):
+        """Symbolic check with Apalache (supporting evidence about the specification)."""
+        self.n += 1
+        d = os.path.join(self.scratch, "apa%d" % self.n)
+        os.makedirs(d)
+        for f in os.listdir(SPEC):
+            if f.endswith(".tla"):
+                shutil.copyfile(os.path.join(SPEC, f), os.path.join(d, f))
+        t = time.time()
+        try:
+            r = subprocess.run(["apalache-mc", "check", *args, "--out-dir=" + os.path.join(d, "out"), module + ".tla"],
+                               cwd=d, capture_output=True, text=True, timeout=timeout)
+        except subprocess.TimeoutExpired:
+            raise Broken("apalache timed out on %s" % module)
+        ok = "The outcome is: NoError" in r.stdout
+        self.step("apalache", module=module, args=list(args), ok=ok, wall_s=round(time.time() - t, 1), note=note)
+        self.cov["obligations"] = self.cov.get("obligations", 0) + lemmas
+        if ok:
+            self.cov["discharged"] = self.cov.get("discharged", 0) + lemmas
+        else:
+            raise Broken("apalache did not discharge %s:\n%s" % (module, r.stdout[-3000:]))
+        shutil.rmtree(os.path.join(d, "out"), ignore_errors=True)
+        return ok
+
+    def run_tool(self, cmd, tags, args=(), timeout=60):
+        exe = self.build(cmd, tags=tags)
+        r = subprocess.run([exe, *args], env=self.env(), capture_output=True, text=True, timeout=timeout)
+        if r.returncode != 0:
+            raise Broken("%s failed: %s" % (cmd, r.stderr[-2000:]))
+        return r.stdout
+
     # -------------------------------------------------------------- drivers
     def drv(self, family, args=(), race=False, timeout=150, tags="test verif", extra_env=None):
         exe = self.build("drv", race=race, tags=tags)
